@@ -74,7 +74,7 @@ func (m *merged) add(rec *UnitRecord) {
 		}
 	}
 	m.failCount += rec.FailCount
-	if len(m.failures) < 400 {
+	if len(m.failures) < 4000 {
 		m.failures = append(m.failures, rec.Failures...)
 	}
 	m.samples = append(m.samples, rec.Samples...)
@@ -444,13 +444,31 @@ func reduceAndConfirm(id string, fails []Failure) (roots, unconfirmed []Failure)
 		return nil, nil
 	}
 	// keep the earliest few failures per (leg, signature): simplest first
-	perSig := map[string]int{}
-	var pick []Failure
+	// per (leg, signature): the earliest few (simplest first) plus an evenly
+	// spread selection, so that one prolific defect does not hide another
+	groups := map[string][]Failure{}
+	var order []string
 	for _, f := range fails {
 		k := f.Leg + "|" + f.Sig
-		if perSig[k] < 12 {
-			perSig[k]++
-			pick = append(pick, f)
+		if _, ok := groups[k]; !ok {
+			order = append(order, k)
+		}
+		groups[k] = append(groups[k], f)
+	}
+	var pick []Failure
+	for _, k := range order {
+		g := groups[k]
+		used := map[int]bool{}
+		for i := 0; i < len(g) && i < 6; i++ {
+			used[i] = true
+		}
+		for i := 0; i < 18; i++ {
+			used[i*len(g)/18] = true
+		}
+		for i := range g {
+			if used[i] {
+				pick = append(pick, g[i])
+			}
 		}
 	}
 	in, _ := json.Marshal(pick)
